@@ -620,6 +620,226 @@ def threaded_explore(ck, cfg, plan, budget, nrandom):
     return runs
 
 
+# ---------------------------------------------------------------------------- successive / concurrent connections through the LLC
+def sessions_case(ck, scen, chooser=None, how='default'):
+    """Several data link connections to ONE listening service, through two real LogicalLinkControllers
+    (llc.connect / accept / send / recv / close, PDUs moved by collect() / dispatch()), under the
+    deterministic scheduler.  scen = {'rw': .., 'agf': bool, 'server_close': 'late'|'never'|'prompt',
+    'clients': [[(n_msgs, n_replies), ...], ...]}: one client thread per entry of 'clients', which opens
+    its connections one after the other (connect, blocking sends, blocking recv of the replies,
+    close; the next socket is bound afterwards and gets the released address); a server thread
+    accepts, one handler thread per accepted connection receives, replies, sees recv() -> None when
+    the peer disconnects and closes its socket late / never / at once.
+    Monitor (this part is monitor-only: Model/Dlc.v has no SAP socket list): per connection and
+    direction, returned by recv() == accepted by send(), in order; every blocking call returns."""
+    import nfc.llcp.llc as L
+    import nfc.llcp.tco as tco
+    import nfc.llcp.pdu as pdu
+    from sim import sched as S
+    sch = S.Sched(chooser, max_steps=20000)
+    case = {'kind': 'llc-sessions', 'scen': scen, 'how': how}
+    bad = []
+    rec = {'bad': bad, 'case': case}
+
+    def violate(key, what, **data):
+        d = dict(case)
+        d.update(data)
+        d['schedule'] = list(sch.schedule)
+        bad.append(key)
+        if len(bad) <= 2:
+            ck.violation(key, what, d)
+
+    nconn = sum(len(c) for c in scen['clients'])
+    sent = {}        # (conn id, 'c'|'s') -> messages accepted by send()
+    got = {}         # (conn id, 'c'|'s') -> messages returned by recv() at the other end
+    live = {'apps': 0, 'parked': 0}
+
+    def guard(name, fn):
+        def run():
+            try:
+                fn()
+            except S.Abort:
+                raise
+            except LlcpError as e:
+                violate('session-call-failed', '%s: a socket call on a healthy link raised errno %d' % (name, e.errno), thread=name)
+            except Exception as e:  # noqa
+                violate('impl-exception:%s:%s' % (type(e).__name__, name.split('-')[0]), '%s raised %s: %s' % (name, type(e).__name__, str(e)[:80]))
+            finally:
+                live['apps'] -= 1
+        return run
+
+    with S.install(sch, [tco, L]):
+        la = L.LogicalLinkController(miu=248, agf=scen['agf'], sec=False)
+        lb = L.LogicalLinkController(miu=248, agf=scen['agf'], sec=False)
+        for x in (la, lb):
+            x.cfg['send-miu'] = 248
+            x.cfg['send-agf'] = scen['agf']
+        srv = lb.socket(L.DATA_LINK_CONNECTION)
+        lb.setsockopt(srv, nfc.llcp.SO_RCVBUF, scen['rw'])
+        lb.bind(srv, b'urn:nfc:sn:verif')
+        lb.listen(srv, 4)
+        release = sch.threading.Event()
+        addrs = []
+
+        def client(k, conns):
+            def body():
+                for j, (n, nrep) in enumerate(conns):
+                    cid = 16 * k + j
+                    c = la.socket(L.DATA_LINK_CONNECTION)
+                    la.setsockopt(c, nfc.llcp.SO_RCVBUF, scen['rw'])
+                    la.connect(c, srv.addr)
+                    addrs.append((cid, c.addr))
+                    for i in range(n):
+                        m = bytes([cid, i, n, nrep])
+                        if la.send(c, m, 0) is True:
+                            sent.setdefault((cid, 'c'), []).append(m)
+                        else:
+                            violate('send-failed', 'blocking send() on an established connection did not return True', conn=cid)
+                    for i in range(nrep):
+                        m = la.recv(c)
+                        if m is None:
+                            violate('recv-none', 'recv() returned None although the peer has not disconnected', conn=cid)
+                            break
+                        got.setdefault((cid, 's'), []).append(bytes(m))
+                    la.close(c)
+            return body
+
+        def handler(s):
+            def body():
+                first = lb.recv(s)
+                if first is None:
+                    violate('recv-none', 'server recv() returned None before any message', peer=s.peer)
+                    return
+                cid, _i, n, nrep = bytes(first)
+                got.setdefault((cid, 'c'), []).append(bytes(first))
+                for _ in range(n - 1):
+                    m = lb.recv(s)
+                    if m is None:
+                        violate('recv-none', 'server recv() returned None although the peer has not disconnected', conn=cid)
+                        return
+                    got[(cid, 'c')].append(bytes(m))
+                for i in range(nrep):
+                    m = bytes([cid | 0x80, i])
+                    if lb.send(s, m, 0) is True:
+                        sent.setdefault((cid, 's'), []).append(m)
+                    else:
+                        violate('send-failed', 'blocking send() on an established connection did not return True', conn=cid)
+                m = lb.recv(s)               # the peer disconnects
+                if m is not None:
+                    violate('recv-phantom', 'recv() returned a message that was never sent', conn=cid, msg=bytes(m).hex())
+                if scen['server_close'] == 'prompt':
+                    lb.close(s)
+                elif scen['server_close'] == 'late':
+                    live['parked'] += 1
+                    release.wait()
+                    live['parked'] -= 1
+                    lb.close(s)
+            return body
+
+        def server():
+            for _ in range(nconn):
+                s = lb.accept(srv)
+                live['apps'] += 1
+                sch.spawn(guard('handler-%d' % s.peer, handler(s)), 'handler-%d' % s.peer)
+
+        idle = sch.threading.Condition()
+
+        def link():
+            quiet = 0
+            try:
+                for _ in range(3000):
+                    moved = False
+                    for src, dst in ((la, lb), (lb, la)):
+                        p = src.collect()
+                        if p is not None:
+                            moved = True
+                            dst.dispatch(pdu.decode(pdu.encode(p)))
+                    quiet = 0 if moved else quiet + 1
+                    if live['parked'] and live['apps'] == live['parked'] and quiet >= 2 and not release.is_set():
+                        release.set()            # everything else is done: the late closers may go now
+                        quiet = 0
+                    if live['apps'] == 0 and quiet >= 2:
+                        return
+                    if quiet >= 8:
+                        return
+                    with idle:
+                        idle.wait(0.001)
+            except S.Abort:
+                raise
+            except Exception as e:  # noqa
+                violate('impl-exception:%s:link' % type(e).__name__, 'collect()/dispatch() raised %s: %s' % (type(e).__name__, str(e)[:80]))
+
+        try:
+            for k, conns in enumerate(scen['clients']):
+                live['apps'] += 1
+                sch.spawn(guard('client-%d' % k, client(k, conns)), 'client-%d' % k)
+            live['apps'] += 1
+            sch.spawn(guard('server', server), 'server')
+            sch.spawn(link, 'link')
+            blocked = sch.run()
+            rec['schedule'] = list(sch.schedule)
+            rec['enabled'] = [list(e) for e in sch.enabled_log]
+            rec['addrs'] = list(addrs)
+            for key in sorted(set(sent) | set(got)):
+                if got.get(key, []) != sent.get(key, []) and not bad:
+                    violate('session-undelivered', 'messages accepted by send() on a connection are not what the peer recv() returned',
+                            conn=key[0], direction=key[1], accepted=[m.hex() for m in sent.get(key, [])],
+                            returned=[m.hex() for m in got.get(key, [])], client_addrs=addrs)
+            if sch.livelock and not bad:
+                violate('livelock', 'the schedule did not terminate within the step bound')
+            elif blocked and not bad:
+                violate('session-blocked', 'blocking socket call(s) never returned although the link kept exchanging',
+                        blocked=[sch.describe(b) for b in blocked], client_addrs=addrs)
+            for r in sch.recs:
+                if r.exc is not None and not bad:
+                    violate('impl-exception:%s:thread' % type(r.exc).__name__, 'thread %s died with %s' % (r.name, type(r.exc).__name__))
+            rec['messages'] = sum(len(v) for v in got.values())
+        finally:
+            sch.shutdown()
+    return rec
+
+
+SESSION_SCENARIOS = [
+    # successive connections from the same local address (released by close, taken again by the next socket)
+    {'rw': 2, 'agf': False, 'server_close': 'late', 'clients': [[(2, 0), (3, 2)]]},
+    {'rw': 1, 'agf': True, 'server_close': 'never', 'clients': [[(2, 1), (2, 1), (1, 1)]]},
+    {'rw': 3, 'agf': False, 'server_close': 'prompt', 'clients': [[(3, 1), (3, 1)]]},
+    # two concurrent connections from different remote addresses to the same service
+    {'rw': 2, 'agf': False, 'server_close': 'late', 'clients': [[(3, 2)], [(3, 2)]]},
+    {'rw': 1, 'agf': True, 'server_close': 'never', 'clients': [[(2, 1), (2, 1)], [(3, 0)]]},
+]
+
+
+def sessions_explore(ck, scen, budget, nrandom):
+    import random
+    from sim import sched as S
+    runs = 1
+    base = sessions_case(ck, scen)
+    ck.case(('llc-sessions', repr(scen), 'default'), True,
+            {'kind': 'llc-sessions', 'scen': scen, 'steps': len(base.get('schedule', [])), 'client_addrs': base.get('addrs')})
+    ck.count('session-messages', base.get('messages', 0))
+    if base['bad'] or 'schedule' not in base:
+        return runs
+    singles = [(i, a) for i in range(len(base['schedule'])) for a in base['enabled'][i] if a != base['schedule'][i]]
+    if len(singles) > budget:
+        stride = len(singles) / float(budget)
+        singles = [singles[int(k * stride)] for k in range(budget)]
+    for i, a in singles:
+        r = sessions_case(ck, scen, S.Deviations({i: a}), how='preempt %d->T%d' % (i, a))
+        runs += 1
+        ck.case(('llc-sessions', repr(scen), i, a), True)
+        if r['bad']:
+            return runs
+    for _ in range(nrandom):
+        seed = ck.rng.randrange(1 << 30)
+        r = sessions_case(ck, scen, S.RandomChooser(random.Random(seed), ck.rng.choice([0.1, 0.25, 0.5])), how='random %d' % seed)
+        runs += 1
+        ck.case(('llc-sessions', repr(scen), 'random', seed), True)
+        if r['bad']:
+            return runs
+    return runs
+
+
 # ---------------------------------------------------------------------------- main
 EXH_ALPHABET = ['send A 61', 'send B 62', 'recv A', 'recv B', 'deq A 128 0', 'deq B 128 0', 'ack A', 'ack B',
                 'deliver A', 'deliver B', 'busy B 1']
@@ -725,6 +945,10 @@ def main():
             from sim import sched as S
             threaded_case(ck, tuple(case['cfg']), case['plan'], S.Replay(case.get('schedule', [])), how='replay')
             ck.case(('threads-replay',), True)
+        elif case.get('kind') == 'llc-sessions':
+            from sim import sched as S
+            sessions_case(ck, case['scen'], S.Replay(case.get('schedule', [])), how='replay')
+            ck.case(('sessions-replay',), True)
         elif str(case.get('kind', '')).startswith('llc'):
             r = llc_walk(ck, rng, tuple(case['cfg']), 0, tuple(case['agf']), tuple(case['link_miu']), case.get('ops', []))
             if r.compare:
@@ -882,6 +1106,10 @@ def main():
                  [((3, 128, 2, 128), {'A': [3, 2], 'B': [2, 2]}, 5000, 300), ((1, 128, 1, 128), {'A': [10, 8], 'B': [3]}, 1500, 300)]
     for tcfg, tplan, budget, nrandom in tplans:
         ck.count('thread-schedules', threaded_explore(ck, tcfg, tplan, budget, nrandom))
+
+    # ---- successive connections re-using an address / concurrent connections to one service, through the LLC
+    for scen in SESSION_SCENARIOS:
+        ck.count('session-schedules', sessions_explore(ck, scen, 30 if quick else 1500, 8 if quick else 150))
 
     ck.finish(level='proof',
               rule='histories of {send, recv(poll), setsockopt busy, poll acks, dequeue(miu, icv), sendack, deliver} on both '
